@@ -1,6 +1,7 @@
 package main
 
 import (
+	"strings"
 	"encoding/binary"
 	"errors"
 	"fmt"
@@ -160,13 +161,26 @@ func runRIO(args []string) error {
 			return err
 		}
 
-		seqRead := func(p string, prog []int) ([]string, string) {
+		// how: "" (path + options) | "file" (NewFileReaderWithFile) | "dio" (the direct-I/O reader factory)
+		seqReadHow := func(p string, prog []int, how string) ([]string, string) {
 			out := []string{}
 			ropts := []recordio.FileReaderOption{recordio.ReaderPath(p)}
 			if c.RBuf > 0 {
 				ropts = append(ropts, recordio.ReaderBufferSizeBytes(c.RBuf))
 			}
-			r, err := recordio.NewFileReader(ropts...)
+			var r recordio.ReaderI
+			var err error
+			switch how {
+			case "file":
+				var f *os.File
+				if f, err = os.Open(p); err == nil {
+					r, err = recordio.NewFileReaderWithFile(f)
+				}
+			case "dio":
+				r, err = recordio.NewFileReader(recordio.ReaderPath(p), recordio.ReaderIoFactory(recordio.DirectIOFactory{}), recordio.ReaderBufferSizeBytes(4096))
+			default:
+				r, err = recordio.NewFileReader(ropts...)
+			}
 			if err != nil {
 				return out, "openerr:" + err.Error()
 			}
@@ -190,11 +204,22 @@ func runRIO(args []string) error {
 			}
 			return out, "err:reader does not end"
 		}
+		seqRead := func(p string, prog []int) ([]string, string) { return seqReadHow(p, prog, "") }
 
 		if c.Damage == "" {
 			// sequential: all ReadNext, then the read/skip program
 			out, end := seqRead(path, nil)
 			tr.emit(M{"t": "seq", "prog": []int{}, "out": out, "end": end})
+			// the other ways to get a sequential reader: from an open file, through the direct-I/O factory (where O_DIRECT is available)
+			out, end = seqReadHow(path, nil, "file")
+			tr.emit(M{"t": "seq", "prog": []int{}, "out": out, "end": end})
+			if ci%3 == 0 {
+				if ok, _ := recordio.IsDirectIOAvailable(); ok {
+					if out, end = seqReadHow(path, nil, "dio"); !strings.HasPrefix(end, "openerr:") {
+						tr.emit(M{"t": "seq", "prog": []int{}, "out": out, "end": end})
+					}
+				}
+			}
 			if len(c.ReadProg) > 0 {
 				out, end := seqRead(path, c.ReadProg)
 				tr.emit(M{"t": "seq", "prog": c.ReadProg, "out": out, "end": end})
